@@ -7,7 +7,7 @@ Request:  `tx  run  <shared 0|1>  <init>  <events>`
   events := `;`-separated: `C` connect · `K<c>` conn.cursor() · `X<k>:<stmt>` cursor k executes ·
             `M<c>` conn.commit() · `R<c>` conn.rollback()
   stmt   := `b` BEGIN · `c` COMMIT · `r` ROLLBACK · `s<t>` select · `i<t>.<k>.<v>` · `d<t>.<k>` · `u<t>.<k>.<v>` ·
-            `ft` missing table · `fc` missing column · `fr` run-time failure · `k` SELECT 1
+            `ft` missing table · `fc` missing column · `fr` run-time failure · `fm` MERGE whose clause fails to bind · `k` SELECT 1
 Reply:    `impl=<obs;…>  spec=<obs;…>  env=<0|1>  finding=<key|->  fstep=<index|->`
   obs    := `-` (no statement ran) · `e` empty · `S` status row · `r<k.v,…>` rows · `n<count>` · `1` ·
             `Et`/`Ec` Snowflake 2003/2043 · `N` raw nested-BEGIN error · `X` raw run-time error · `A` raw aborted · `I` unspecified
@@ -39,7 +39,7 @@ def parseStmt (s : String) : Option Stmt :=
   | 'i' => match nats tl with | some [t, k, v] => some (.dml t (.ins k v)) | _ => none
   | 'd' => match nats tl with | some [t, k] => some (.dml t (.del k)) | _ => none
   | 'u' => match nats tl with | some [t, k, v] => some (.dml t (.upd k v)) | _ => none
-  | 'f' => match tl with | "t" => some (.failBind false) | "c" => some (.failBind true) | "r" => some .failRun | _ => none
+  | 'f' => match tl with | "t" => some (.failBind false) | "c" => some (.failBind true) | "r" => some .failRun | "m" => some .failMulti | _ => none
   | _ => none
 
 def parseEv (s : String) : Option Ev :=
